@@ -350,6 +350,9 @@ impl<T> NCReadStream<T> {
         let (lock, cv) = &*self.q;
         // TODO: attach tags.
         let ret = lock.lock().unwrap().pop_front().map(|v| (v, Vec::new()));
+        if ret.is_some() {
+            circular_buffer::note_activity();
+        }
         cv.notify_all();
         ret
     }
@@ -377,6 +380,7 @@ impl<T> NCWriteStream<T> {
         let (lock, cv) = &*self.q;
         // TODO: attach tags.
         lock.lock().unwrap().push_back(val);
+        circular_buffer::note_activity();
         cv.notify_all();
     }
 }
